@@ -2694,6 +2694,10 @@ func (d *Data) ServeHTTP(uuid dvid.UUID, ctx *datastore.VersionedCtx, w http.Res
 		fmt.Fprintln(w, jsonStr)
 
 	case "resolution":
+		if action != "post" {
+			server.BadRequest(w, r, "resolution endpoint only supports POST HTTP verb")
+			return
+		}
 		jsonBytes, err := ioutil.ReadAll(r.Body)
 		if err != nil {
 			server.BadRequest(w, r, err)
@@ -2886,6 +2890,10 @@ func (d *Data) handleLabels(ctx *datastore.VersionedCtx, w http.ResponseWriter, 
 func (d *Data) handleBlocks(ctx *datastore.VersionedCtx, w http.ResponseWriter, r *http.Request, parts []string) {
 	// GET <api URL>/node/<UUID>/<data name>/blocks/<size>/<offset>[?compression=...]
 	// POST <api URL>/node/<UUID>/<data name>/blocks[?compression=...]
+	if action := strings.ToLower(r.Method); action != "get" && action != "post" {
+		server.BadRequest(w, r, "blocks endpoint only supports GET and POST HTTP verbs")
+		return
+	}
 	timedLog := dvid.NewTimeLog()
 
 	queryStrings := r.URL.Query()
@@ -3008,6 +3016,10 @@ func (d *Data) handlePseudocolor(ctx *datastore.VersionedCtx, w http.ResponseWri
 func (d *Data) handleDataRequest(ctx *datastore.VersionedCtx, w http.ResponseWriter, r *http.Request, parts []string) {
 	if len(parts) < 7 {
 		server.BadRequest(w, r, "'%s' must be followed by shape/size/offset", parts[3])
+		return
+	}
+	if action := strings.ToLower(r.Method); action != "get" && action != "post" {
+		server.BadRequest(w, r, "raw and isotropic endpoints only support GET and POST HTTP verbs")
 		return
 	}
 	timedLog := dvid.NewTimeLog()
